@@ -697,6 +697,9 @@ def run(ctx):
         if body and ctx.time_left() > 10 and (len(body) < 10000 or ctx.tier == "thorough"):
             check_texts(ctx, [body], "fixture")
 
+    # --- index_to_loc / highlight_location: totality for 0 <= position <= len, IndexError beyond ------------
+    check_locations(ctx, rng)
+
     # --- bounded-exhaustive short strings -------------------------------------------------------
     maxlen = 3 if ctx.tier == "quick" else 4
     allshort = ["".join(p) for k in range(1, maxlen + 1) for p in itertools.product(ALPHABET, repeat=k)]
@@ -712,6 +715,45 @@ def run(ctx):
         oracle_single_lexemes(ctx, chunk, "exhaustive")
         done += len(chunk)
     ctx.extra["exhaustive_strings"] = done
+
+
+def real_loc(body, pos):
+    from py_gql._string_utils import highlight_location, index_to_loc
+    out = []
+    for fn in (index_to_loc, highlight_location):
+        try:
+            out.append(("ok", fn(body, pos)))
+        except IndexError:
+            out.append(("IndexError", None))
+        except Exception as e:  # noqa
+            out.append(("internal:" + type(e).__name__, None))
+    return out
+
+
+def check_locations(ctx, rng):
+    bodies = ["", "a", "\n", "a\nb", "a\r\nb", "a\rb", "\r", "\r\n", "\n\n\n", "ab\ncd\ne", "a\u2028b\nc", "\r\r\n\n", "{\n  a\n}\n"]
+    for _ in range(ctx.n(150, 1500)):
+        bodies.append("".join(rng.choice("ab \n\n\r{\u2028") for _ in range(rng.choice([1, 2, 3, 5, 9, 30]))))
+    cases = [(b, p) for b in bodies for p in list(range(len(b) + 3))]
+    ans = ctx.driver.ask([{"op": "index_to_loc", "body": cps(b), "pos": p} for b, p in cases]) if ctx.model_ok else [None] * len(cases)
+    for (b, p), a in zip(cases, ans):
+        ctx.count()
+        loc, hl = real_loc(b, p)
+        ctx.stat("loc:%s" % ("in-range" if p <= len(b) else "beyond"))
+        if p <= len(b):
+            ctx.nontrivial(("loc", b, p))
+            if loc[0] != "ok" or hl[0] != "ok":
+                ctx.fail("location-raises:%s:%s" % (loc[0] if loc[0] != "ok" else hl[0], classes(b)),
+                         "index_to_loc / highlight_location raise for a position inside the text",
+                         {"part": PART, "kind": "loc", "text": cps(b), "pos": p})
+                continue
+        if a is None:
+            continue
+        m_ok = a["loc"] is not None
+        if (loc[0] == "ok") != m_ok or (hl[0] == "ok") != bool(a["highlight_ok"]) or \
+                (m_ok and "\r" not in b and list(loc[1]) != a["loc"]):
+            ctx.fail("corr:index_to_loc:%s" % classes(b), "model indexToLoc/highlightLocation and the implementation differ",
+                     {"part": PART, "kind": "loc", "text": cps(b), "pos": p, "impl": repr((loc, hl[0])), "model": a}, kind="correspondence")
 
 
 def report_render_failure(ctx, toks, text, r):
@@ -757,6 +799,9 @@ def replay(ctx, data):
     r = real_lex(text)
     if kind == "bytes":
         return real_lex(text) == real_lex(text.encode("utf8"))
+    if kind == "loc":
+        loc, hl = real_loc(text, int(inp.get("pos", 0)))
+        return loc[0] == "ok" and hl[0] == "ok"
     if kind == "tokens":
         exp = inp.get("expect", [])
         got = [(x[0], x[3]) for x in r[1][1:-1]] if r[0] == "ok" else None
